@@ -188,6 +188,7 @@ class Aggregate(object):
         self.dep_names = {}
         self.by_kind = {}
         self.fam_runs = {}
+        self.probes = {}
         self.ref_wall = 0.0
         self.fd_leaks = 0
 
@@ -212,6 +213,8 @@ class Aggregate(object):
             self.classes[q] = self.classes.get(q, 0) + 1
         for f in c.get("families", []):
             self.fam_runs[f] = self.fam_runs.get(f, 0) + 1
+        for k, v in c.get("probes", {}).items():
+            self.probes[k] = self.probes.get(k, 0) + v
         for k, v in c["containers"].items():
             self.containers[k] = self.containers.get(k, 0) + v
         for k in c["run_faults"]:
@@ -447,6 +450,7 @@ def write_evidence(prop, tier, seed, agg, wall, n_viol, reported, known_lines, h
         "same_module_parameter_set_pairs": len(agg.pset_pairs),
         "containers": agg.containers,
         "runs_per_family": dict(sorted(agg.fam_runs.items())),
+        "rare_condition_probes": agg.probes,
         "seeds": {"batch_seed": seed, "derived_prng_streams": agg.runs,
                   "note": "one PRNG stream per run, derived as sha256(batch seed, tier, run index, property); runs_per_hour is also seeds per hour"},
         "classes_covered": {"covered": len([c for c in covered if c.startswith("exactpack.")]), "of": len(census), "uncovered": [c for c in census if c not in agg.classes][:40]},
